@@ -134,6 +134,24 @@ class Interp:
                 raise _Return(self.ev(s.value) if s.value is not None else None)
             elif isinstance(s, ast.FunctionDef):
                 self.env[s.name] = self._make_function(s)
+            elif isinstance(s, ast.Assert):
+                pass  # assertions narrow types for the reader; they are not part of the tabulated behaviour
+            elif isinstance(s, (ast.Import, ast.ImportFrom)):
+                for a in s.names:  # imported names must be provided by the rule as stand-ins
+                    if (a.asname or a.name.split(".")[0]) not in self.env:
+                        raise AnalysisError(f"tabulation: no stand-in for imported name {a.asname or a.name}")
+            elif isinstance(s, ast.Try) and not s.finalbody:
+                try:
+                    self.run(s.body)
+                except _Raised as ex:
+                    for h in s.handlers:
+                        if h.type is None or str(ex) in unparse(h.type) or unparse(h.type).split(".")[-1] in str(ex):
+                            self.run(h.body)
+                            break
+                    else:
+                        raise
+                else:
+                    self.run(s.orelse)
             elif isinstance(s, ast.Raise):
                 raise _Raised(unparse(s.exc)[:80] if s.exc else "raise")
             else:
